@@ -17,7 +17,7 @@ RULE = ("split_sync: all 65536 int16 words (exhaustive) in natural, shuffled, co
         "step amplitudes and analog thresholding. Non-trivial: a train with >= 3 events on >= 2 lines; distinct = distinct "
         "(layout | file kind, line subset, slice, dtype) signature")
 ASSUMPTIONS = ["one digital sync word per sample (as in every fixture); 0/1 trains are given as signed or floating arrays"]
-REQUIRED = {"words_checked": 65536, "read_sync_checked": 10, "fronts_checked": 100, "fronts_2d_checked": 100, "strided_sync_checked": 20, "nidq_partial_checked": 8, "analog_lines_checked": 4, "sync_routes_checked": 30}
+REQUIRED = {"words_checked": 65536, "read_sync_checked": 10, "fronts_checked": 100, "fronts_2d_checked": 100, "strided_sync_checked": 20, "nidq_partial_checked": 8, "analog_lines_checked": 4, "sync_routes_checked": 30, "lf_band_sync_files": 3}
 CASE_TIMEOUT = 120.0
 EXHAUSTIVE = "split_sync over all 65536 words x 16 bits"
 
@@ -139,7 +139,11 @@ def run_case(case):
         kind = str(rng.choice(G.KINDS))
         ns = int(rng.integers(300, 3000))
         n = int(rng.choice([384, 384, 32, 100]))
-        rec = G.make(rng, kind=kind, n=n, sites=None if n == 384 else G.draw_sites(rng, kind, n, "dense"), ns=ns, content="random")
+        stream = "lf" if (kind in ("3A", "3B1", "3B2", "NPultra") and rng.random() < 0.35) else "ap"      # the LF band carries the same sync word in its last column
+        if stream == "lf":
+            res.count("lf_band_sync_files")
+        rec = G.make(rng, kind=kind, stream=stream, n=n, sites=None if n == 384 else G.draw_sites(rng, kind, n, "dense"), ns=ns, content="random")
+        kind = f"{kind}/{stream}"
         nl = int(rng.integers(1, 17))
         lines = np.sort(rng.choice(16, nl, replace=False))
         T = np.zeros((ns, 16), np.int8)
